@@ -50,7 +50,7 @@ def sanitizer_text(case, work, harness_kw=None, env=None):
         return "(could not re-run: %s)" % e
 
 
-def run_cases(pid, cases, work, harness_kw=None, env=None):
+def run_cases(pid, cases, work, harness_kw=None, env=None, interleave=False):
     """Build both sides from the current tree and run them.  Returns
     (impl_lines, drv_lines, failures, buildinfo) or raises RuntimeError."""
     drv, dlog = C.build_driver()
@@ -59,8 +59,8 @@ def run_cases(pid, cases, work, harness_kw=None, env=None):
     har, hlog = C.build_harness(**(harness_kw or {}))
     if har is None:
         raise RuntimeError("harness build failed (does /repo compile?):\n" + hlog[-3000:])
-    impl, fails = C.run_sharded(har, cases, work, "impl", env=env)
-    drvl, dfails = C.run_sharded(drv, cases, work, "drv", env=env)
+    impl, fails = C.run_sharded(har, cases, work, "impl", env=env, interleave=interleave)
+    drvl, dfails = C.run_sharded(drv, cases, work, "drv", env=env, interleave=interleave)
     if dfails:
         raise RuntimeError("model driver aborted: %r" % (dfails[:2],))
     return impl, drvl, fails, {"driver": dlog if dlog in ("cached", "built") else "built", "harness": hlog if hlog in ("cached", "built") else "built"}
@@ -108,7 +108,7 @@ def run_property(pid, spec, tier, seed, work, t0, replay=None, no_prove=False):
         env = {"VERIF_ZONES": zt}
     cases += g
     try:
-        impl, drvl, fails, binfo = run_cases(pid, cases, work, spec.get("harness_kw"), env=env)
+        impl, drvl, fails, binfo = run_cases(pid, cases, work, spec.get("harness_kw"), env=env, interleave=(not zones and spec.get("interleave", True)))
     except RuntimeError as e:
         p = C.write_replay(pid, {"property": pid, "kind": "build-failure", "detail": str(e)[-4000:]})
         print(str(e)[-2000:])
